@@ -21,7 +21,7 @@ THRESHOLDS = {
     "solution_finite": 0.5,
 }
 MIN_NONTRIVIAL = {"quick": 60, "thorough": 400}
-RULE = ("case = random admissible grid from the smallest the hierarchy produces (5x4) to 65x128, random geometry/profile, "
+RULE = ("case = random admissible grid from the smallest the hierarchy produces (5x4) to 65x128, random geometry (15% mirrored, det DF < 0)/profile, "
         "DirBC, rhs kind (random, 10^U[-8,8], unit vector, consistent A x*, consistent with wide x*), assembly threads in "
         "{1,2,3,5,16}, give cache combination; signature = (nr class, ntheta mod 3, circles mod 3, DirBC, threads, rhs kind, "
         "geometry); non-trivial = >= 20 unknowns and b != 0")
